@@ -15,7 +15,8 @@ Definition persist (st st' : state) : Prop :=
     In e (entries (s_tree st')) /\
     f_max (sget (s_store st) (e_fid e)) <= f_max (sget (s_store st') (e_fid e)) /\
     (forall l, f_len (sget (s_store st) (e_fid e)) = Some l -> f_len (sget (s_store st') (e_fid e)) = Some l) /\
-    (forall p l, frange (s_store st) (e_fid e) = Some (p, l) -> frange (s_store st') (e_fid e) = Some (p, l)).
+    (forall p l, frange (s_store st) (e_fid e) = Some (p, l) -> frange (s_store st') (e_fid e) = Some (p, l)) /\
+    (forall p, f_start (sget (s_store st) (e_fid e)) = Some p -> f_start (sget (s_store st') (e_fid e)) = Some p).
 
 Lemma persist_refl st : persist st st.
 Proof. split; [reflexivity|]. intros e He. repeat split; auto; lia. Qed.
@@ -23,7 +24,7 @@ Proof. split; [reflexivity|]. intros e He. repeat split; auto; lia. Qed.
 Lemma persist_trans a b c : persist a b -> persist b c -> persist a c.
 Proof.
   intros [A0 A] [B0 B]. split; [congruence|]. intros e He.
-  destruct (A e He) as [A1 [A2 [A3 A4]]]. destruct (B e A1) as [B1 [B2 [B3 B4]]].
+  destruct (A e He) as [A1 [A2 [A3 [A4 A5]]]]. destruct (B e A1) as [B1 [B2 [B3 [B4 B5]]]].
   repeat split; auto; lia.
 Qed.
 
@@ -46,11 +47,12 @@ Proof.
     assert (Hold : sget s1 (e_fid e0) = sget (s_store st) (e_fid e0)).
     { subst s1. apply sget_app_old. apply (wf_bound _ _ W _ He). }
     destruct (HS (e_fid e0)) as [E1 [E2 E3]]. rewrite Hold in E1, E2, E3.
-    split; [|split; [|split]].
+    split; [|split; [|split; [|split]]].
     - apply (Permutation_in _ (Permutation_sym HP)). now right.
     - lia.
     - intros l Hl. congruence.
-    - intros p l Hr. unfold frange in *. now rewrite E1, E2. }
+    - intros p l Hr. unfold frange in *. now rewrite E1, E2.
+    - intros p Hp. congruence. }
   destruct (get_field_requirements t' i fv) as [reqs|].
   - destruct (propagate_tags t' fv s1 reqs (nodup Z.eq_dec tags)) as [s2 e2] eqn:Ep.
     inversion H; subst st' e. apply Hgoal. eapply propagate_tags_same_layout; eauto.
@@ -70,18 +72,43 @@ Proof.
     destruct (call_check_none _ _ _ _ Ec i v Hin) as [fid' [Hg' [_ Hfit]]].
     assert (fid' = fid) by congruence. subst. now apply Hfit. }
   split; [reflexivity|]. intros e0 He. simpl. destruct (G1 (e_fid e0)) as [A [B [_ [D _]]]].
-  split; [exact He|split; [exact D|split]].
+  split; [exact He|split; [exact D|split; [|split]]].
   - intros l Hl. congruence.
   - intros p l Hr. unfold frange in *. now rewrite A, B.
+  - intros p Hp. congruence.
 Qed.
 
 Lemma assign_persist orig st st' e : Inv st -> assign_fields_gen orig st = (st', e) -> persist st st'.
 Proof.
-  intros [W HI] H. destruct (assign_fields_inv _ _ _ _ W HI H) as [A [B [_ [_ [_ [[S1 [S2 S3]] _]]]]]].
-  split; [exact A|]. intros e0 He. rewrite B. split; [exact He|split; [|split]].
+  intros [W HI] H. destruct (assign_fields_inv _ _ _ _ W HI H) as [A [B [_ [_ [_ [[S1 [S2 [S3 S4]]] _]]]]]].
+  split; [exact A|]. intros e0 He. rewrite B. split; [exact He|split; [|split; [|split]]].
   - destruct (S2 (e_fid e0)) as [-> _]. lia.
   - intros l Hl. now apply S3.
   - intros p l Hr. now apply S1.
+  - intros p Hp. now apply S4.
+Qed.
+
+(* an accepted add_field creates the field object with the length and position given *)
+Lemma add_field_new_entry st fv i len start tags st' :
+  Inv st -> add_field_gen false st fv i len start tags = (st', None) ->
+  exists path, In (path, (i, length (s_store st))) (entries (s_tree st'))
+    /\ f_start (sget (s_store st') (length (s_store st))) = start
+    /\ f_len (sget (s_store st') (length (s_store st))) = len.
+Proof.
+  intros [W HI] H. unfold add_field_gen in H.
+  destruct (match len with Some l => l <=? 0 | None => false end); [discriminate|].
+  destruct (match start with Some s => range_bad false (s_len st) s len | None => false end); [discriminate|].
+  match type of H with (if ?c then _ else _) = _ => destruct c end; [discriminate|].
+  destruct (tree_add (s_tree st) i (length (s_store st)) fv) as [t'| | |] eqn:Et; try discriminate.
+  destruct (tree_add_wf _ _ _ _ _ W Et) as [W' [path [HP Hpath]]].
+  set (s1 := s_store st ++ [mkField len start (nodup Z.eq_dec tags) 1]) in *.
+  destruct (get_field_requirements t' i fv) as [reqs|]; [|discriminate].
+  destruct (propagate_tags t' fv s1 reqs (nodup Z.eq_dec tags)) as [s2 e2] eqn:Ep.
+  inversion H; subst st' e2. simpl.
+  destruct (propagate_tags_same_layout _ _ _ _ _ _ _ Ep) as [_ HS].
+  destruct (HS (length (s_store st))) as [E1 [E2 _]].
+  exists path. split; [apply (Permutation_in _ (Permutation_sym HP)); now left|].
+  rewrite E1, E2. subst s1. rewrite sget_app_new. simpl. auto.
 Qed.
 
 Lemma step_persist st o st' r : Inv st -> step st o = (st', r) -> persist st st'.
